@@ -94,6 +94,7 @@ func runC01(c *Ctx, r *Report) {
 	c01Ignore(c, r)
 	// (g) every worker evaluates with its own matcher instance
 	borrow(c, r, c05MatcherPerWorker, "C05-e", "C01-g", nil, true)
+	c05FreshInstance(c, r, "C01-g/fresh-instance")
 }
 
 // atomicAddTarget: atomic.AddUint64(&x.f, 1) -> field name.
